@@ -256,6 +256,19 @@ func c14Direct(r *Run, h int) {
 			old := ovsRow(genC05Row(r.Rng))
 			if cur != nil {
 				old = ovsRow(cur)
+				if r.Rng.Intn(2) == 0 {
+					// as RFC 7047 has it: "old" holds the former values of the columns that changed, and only those
+					changed := Row{}
+					for c, v := range cur {
+						if nv, ok := st.Row[c]; !ok || nv.Canon() != v.Canon() {
+							changed[c] = v
+						}
+					}
+					if len(changed) > 0 {
+						old = ovsRow(changed)
+						st.Kind = "update1(old = changed columns)"
+					}
+				}
 			}
 			call(func() error { return tc.Populate(ovsdb.TableUpdates{"T": {u: &ovsdb.RowUpdate{Old: &old, New: &row}}}) })
 		}
